@@ -1024,6 +1024,40 @@ impl World {
 
     /// Encapsulations made from another OS thread on the same instance, one thread after the
     /// other (no race): freshness must hold across threads.
+    pub fn ev_fresh_instances(&mut self, user: usize, e: usize, kpol: &PolArg, epol: &PolArg) {
+        self.stats.probe("fresh-library-instances");
+        for _ in 0..2 {
+            // seeded by the library itself from the (interposed, per-run) entropy source
+            let fresh = match guard(cosmian_cover_crypt::api::Covercrypt::default) {
+                Ok(c) => c,
+                Err(p) => {
+                    self.fail(Class::Panic, "instance-creation/panic", p);
+                    return;
+                }
+            };
+            // key generation on the authority's master key through this instance
+            let own = std::mem::replace(&mut self.auth.cc, fresh);
+            self.ev_keygen(user, kpol);
+            self.outcomes.pop();
+            let fresh = std::mem::replace(&mut self.auth.cc, own);
+            // encapsulation with an encryptor's public key through this instance
+            if e < self.encryptors.len() && self.encryptors[e].mpk.is_some() {
+                if let Some(ap) = self.parse_policy(epol) {
+                    let (mpk, mm) = self.encryptors[e].mpk.as_ref().unwrap();
+                    if let Ok(me) = mm.encaps(&epol.ast) {
+                        if let Ok(Ok((s, x))) = guard(|| fresh.encaps(mpk, &ap)) {
+                            if let Ok(b) = x.serialize() {
+                                let (s, b) = (s.to_vec(), b.to_vec());
+                                self.register_enc(&b, &s, "encaps-fresh-instance", &me);
+                            }
+                        }
+                    }
+                }
+            }
+        }
+        self.outcomes.push("fresh-instances".into());
+    }
+
     pub fn ev_encrypt_other_thread(&mut self, e: usize, pol: &PolArg, n: u32) {
         if e >= self.encryptors.len() || self.encryptors[e].mpk.is_none() {
             return;
